@@ -17,33 +17,39 @@ func (ls *LState) CheckAny(n int) LValue {
 	return ls.Get(n)
 }
 
+// argNumber converts an argument the way every numeric accessor does: a number, or a string that
+// reads as one.
+func argNumber(v LValue) (LNumber, bool) {
+	if lv, ok := v.(LNumber); ok {
+		return lv, true
+	}
+	if lv, ok := v.(LString); ok {
+		if num, err := parseNumber(string(lv)); err == nil {
+			return num, true
+		}
+	}
+	return 0, false
+}
+
 func (ls *LState) CheckInt(n int) int {
-	v := ls.Get(n)
-	if intv, ok := v.(LNumber); ok {
-		return int(intv)
+	if num, ok := argNumber(ls.Get(n)); ok {
+		return int(num)
 	}
 	ls.TypeError(n, LTNumber)
 	return 0
 }
 
 func (ls *LState) CheckInt64(n int) int64 {
-	v := ls.Get(n)
-	if intv, ok := v.(LNumber); ok {
-		return int64(intv)
+	if num, ok := argNumber(ls.Get(n)); ok {
+		return int64(num)
 	}
 	ls.TypeError(n, LTNumber)
 	return 0
 }
 
 func (ls *LState) CheckNumber(n int) LNumber {
-	v := ls.Get(n)
-	if lv, ok := v.(LNumber); ok {
-		return lv
-	}
-	if lv, ok := v.(LString); ok {
-		if num, err := parseNumber(string(lv)); err == nil {
-			return num
-		}
+	if num, ok := argNumber(ls.Get(n)); ok {
+		return num
 	}
 	ls.TypeError(n, LTNumber)
 	return 0
@@ -146,8 +152,8 @@ func (ls *LState) OptInt(n int, d int) int {
 	if v == LNil {
 		return d
 	}
-	if intv, ok := v.(LNumber); ok {
-		return int(intv)
+	if num, ok := argNumber(v); ok {
+		return int(num)
 	}
 	ls.TypeError(n, LTNumber)
 	return 0
@@ -158,8 +164,8 @@ func (ls *LState) OptInt64(n int, d int64) int64 {
 	if v == LNil {
 		return d
 	}
-	if intv, ok := v.(LNumber); ok {
-		return int64(intv)
+	if num, ok := argNumber(v); ok {
+		return int64(num)
 	}
 	ls.TypeError(n, LTNumber)
 	return 0
@@ -170,8 +176,8 @@ func (ls *LState) OptNumber(n int, d LNumber) LNumber {
 	if v == LNil {
 		return d
 	}
-	if lv, ok := v.(LNumber); ok {
-		return lv
+	if num, ok := argNumber(v); ok {
+		return num
 	}
 	ls.TypeError(n, LTNumber)
 	return 0
